@@ -89,8 +89,8 @@ Print Assumptions C12_unpack_byte_array_overrun_refuted.
    decoder is told itemsize = isz: a = isz, the model returns Ok on every spec-encoded stream of runs inside its
    region, stores exactly min(total, n) items and never writes more bytes than the n * a the caller allocated -
    for EVERY n (also when the page holds more values than the header announced). *)
-Theorem C12_caller_allocation_fits : forall w selfmade a isz n rs,
-  adequate w selfmade (DGeneric a isz) = true ->
+Theorem C12_caller_allocation_fits : forall w selfmade one_run a isz n rs,
+  adequate w selfmade one_run (DGeneric a isz) = true ->
   Forall (irun_ok w isz) rs -> rs <> [] ->
   exists r, c_read_hybrid (hyb_enc w rs) w (lenN (hyb_enc w rs)) (n * a) isz = Ok r /\
             d_vals r = map (tr isz) (firstn (N.to_nat (N.min (lenN (allvals rs)) n)) (allvals rs)) /\
